@@ -130,6 +130,14 @@ pub fn sorted_values(rng: &mut Rng, repr: &str, n: usize) -> Vec<i64> {
             total = n as i128;
         }
     }
+    // one declaration in eight with holes: one gap is stretched towards the whole width of the repr, so
+    // that spans beyond half the repr's range (> i64::MAX for the 64-bit reprs) occur (seeded c17k)
+    if !gaps.is_empty() && total < span && rng.chance(1, 8) {
+        let j = rng.below(gaps.len() as u64) as usize;
+        let extra = (span - total) >> rng.below(4);
+        gaps[j] += extra;
+        total += extra;
+    }
     let start = match rng.below(6) {
         0 => lo,
         1 => hi - total + 1,
